@@ -996,7 +996,7 @@ def utc(dt):
             timespan(hours => 3)).utc.hour
         13
     """
-    return dt - dt.utcoffset()
+    return dt.astimezone(UTCTZ)
 
 
 @specs.yaql_property(DATETIME_TYPE)
@@ -1017,7 +1017,7 @@ def offset(dt):
     return dt.utcoffset() or ZERO_TIMESPAN
 
 
-@specs.yaql_property(DATETIME_TYPE)
+@specs.yaql_property(yaqltypes.DateTime())
 def timestamp(dt):
     """:yaql:property timestamp
 
@@ -1032,7 +1032,7 @@ def timestamp(dt):
         yaql> datetime(2006, 11, 21, 16, 30).timestamp
         1164126600.0
     """
-    return (utc(dt) - DATETIME_TYPE(1970, 1, 1, tzinfo=UTCTZ)).total_seconds()
+    return (dt - DATETIME_TYPE(1970, 1, 1, tzinfo=UTCTZ)).total_seconds()
 
 
 @specs.method
